@@ -87,6 +87,14 @@ pub fn c08(t: &dyn TypeOps, cx: &mut Cx) {
             Out::Ok(()) => {}
             o => { cx.violate(&format!("store-{}", o.class()), json!({"value": vdesc(i, &want), "observed": o.describe()})); continue; }
         }
+        // storing where nothing can be written is not a success (the file would not hold the bytes)
+        if vi == 0 {
+            cx.evals += 1;
+            match t.store(i, "/dev/full") {
+                Out::Ok(()) => cx.violate("store-reports-success-although-no-byte-could-be-written", json!({"value": vdesc(i, &want), "sink": "/dev/full", "serialize_len": bytes.len()})),
+                _ => cx.outcome("store-to-full-device-refused"),
+            }
+        }
         let file = std::fs::read(&path).unwrap_or_default();
         if file != bytes { cx.violate("stored-file-differs-from-serialize", json!({"value": vdesc(i, &want), "file_len": file.len(), "serialize_len": bytes.len()})); continue; }
         let flen = file.len();
